@@ -392,7 +392,8 @@ class CDSInterval(AbstractFeatureInterval):
     @property
     def has_canonical_start_codon(self) -> bool:
         """Does this CDS have a canonical valid start? Requires a sequence be associated."""
-        return next(self.scan_codons()).is_canonical_start_codon
+        first_codon = next(self.scan_codons(), None)
+        return first_codon is not None and first_codon.is_canonical_start_codon
 
     def has_start_codon_in_specific_translation_table(
         self, translation_table: Optional[TranslationTable] = TranslationTable.DEFAULT
@@ -402,7 +403,8 @@ class CDSInterval(AbstractFeatureInterval):
 
         Defaults to the ``DEFAULT`` table, which is just ``ATG``.
         """
-        return next(self.scan_codons()).is_start_codon_in_specific_translation_table(translation_table)
+        first_codon = next(self.scan_codons(), None)
+        return first_codon is not None and first_codon.is_start_codon_in_specific_translation_table(translation_table)
 
     @property
     def has_valid_stop(self) -> bool:
